@@ -293,7 +293,7 @@ theorem C01_backdated_sample_panics :
       .sample 100 100 3000 false 1 0x10 []] = true := by
   refine ⟨by decide, by decide, by decide, by decide⟩
 
-/-- **No panic.** For default options and every record history without context-switch records / sched_switch
+/-- **No panic.** For every configuration (`--reuse-threads` included) and every record history without context-switch records / sched_switch
 samples in which, per thread incarnation (cut at EXIT / EXEC as in `accStep`), the sample timestamps never decrease
 (`ConvSpec.samplesMonotone`; true of every perf.data file that keeps perf's round contract), the conversion
 performs no failing `u64` operation of `ContextSwitchHandler` — `St.bad` stays false — for every off-CPU mode and
@@ -302,9 +302,9 @@ above describe the output of every such conversion. The excluded point is `C01_b
 answer not-applicable on a `panic` output exactly when `samplesMonotone` is false (`panicVerdict`). Thread-object
 invariant behind it (`Lemmas/ConvNoPanic.lean`): no off-CPU stack stored, context-switch state `Unknown` before the
 first sample of the incarnation and `On(t)` after a sample at `t`. -/
-theorem C01_no_panic (cfg : Config) (rs : List Rec) (hr : cfg.reuse = false) (hcs : hasCsRec rs = false)
+theorem C01_no_panic (cfg : Config) (rs : List Rec) (hcs : hasCsRec rs = false)
     (hm : samplesMonotone rs = true) : (run cfg rs).bad = false :=
-  no_panic_run cfg rs hr hcs hm
+  no_panic_run cfg rs hcs hm
 
 /-! ### Non-vacuity -/
 def C01_exHistory : List Rec :=
